@@ -4761,6 +4761,20 @@ def check_dotted_names(ck, R):
     runs = [c for c in fa.calls() if A.call_attr(c) in ("visit", "generic_visit") and on_visitor(c)]
     whole = [c for c in runs if A.call_attr(c) == "visit" and len(c.args) == 1 and whole_tree(c.args[0], fa.nodes(c)[0])]
     whole_nodes = set(fa.nodes_all(whole))
+    # `for st in <whole tree>.body: visitor.visit(st)`, every statement of the module visited: the same as visiting the module
+    for c in runs:
+        if c in whole or A.call_attr(c) != "visit" or len(c.args) != 1 or not isinstance(c.args[0], ast.Name):
+            continue
+        ds = fa.df.reaching(fa.nodes(c)[0], c.args[0].id)
+        if len(ds) == 1 and ds[0].kind == "for" and isinstance(ds[0].stmt, ast.For) and isinstance(ds[0].stmt.target, ast.Name) and fa.nodes(ds[0].stmt):
+            lp = ds[0].stmt
+            h_ = fa.nodes(lp)[0]
+            it = fa.expand(lp.iter, h_)
+            if isinstance(it, ast.Attribute) and it.attr == "body" and isinstance(lp.iter, ast.Attribute):
+                base_ = lp.iter.value
+                if whole_tree(base_, h_) and all(_every_iteration_passes(fa, hh, fa.nodes(c)) for hh in fa.nodes(lp)):
+                    whole.append(c)
+                    whole_nodes |= set(fa.nodes(lp))
     takes = []   # where the name set is taken out of the visitor
     for st in fa.stmts():
         for nid in fa.nodes(st):
@@ -5546,6 +5560,23 @@ def check_edges_of_a_node_depend_on_its_function_only(ck, R):
                     elif any(isinstance(x, ast.Starred) for x in call.args) or any(k.arg is None for k in call.keywords):
                         binds.append((caller, call, None))
                 for (caller, call, a_) in binds:
+                    if a_ is not None and not _fresh_or_constant(a_):
+                        # something computed from the very function the call is about (`f.hash_rules()` handed in next to `f`)
+                        cfa = FA(ck, caller)
+                        f_ = _call_arg(ck, call, Q, sorted(fn_params)[0])
+                        if f_ is not None and cfa.nodes(call):
+                            at_ = cfa.nodes(call)[0]
+                            about = {x.id for x in ast.walk(cfa.expand(f_, at_)) if isinstance(x, ast.Name)}
+                            used = {x.id for x in ast.walk(cfa.expand(a_, at_)) if isinstance(x, ast.Name)} - {"self", "cls", "set", "list", "tuple", "sorted", "frozenset", "dict"}
+                            if used and used <= about:
+                                continue
+                            # a container made for this very call, handed in through a temporary
+                            if isinstance(a_, ast.Name) and cfa.df.is_local(a_.id):
+                                ds_ = cfa.df.reaching(at_, a_.id)
+                                loops = (ast.For, ast.AsyncFor, ast.While)
+                                if ds_ and all(d.kind == "assign" and d.value is not None and not isinstance(d.value, ast.Constant) and _fresh_or_constant(d.value)
+                                               and d.stmt is not None and cfa.enclosing(d.stmt, loops) is cfa.enclosing(call, loops) for d in ds_):
+                                    continue
                     if a_ is None or not _fresh_or_constant(a_):
                         carried.append(("parameter `%s`, which %s binds to `%s`" % (n.id, caller.qual, A.short(a_, 40) if a_ is not None else "*args/**kwargs"),
                                         "%s:%d" % (caller.file, call.lineno)))
